@@ -51,12 +51,55 @@ def tr_affine(i, o, p):
 TRANSFORMS = {"none": tr_none, "scale": tr_scale, "affine": tr_affine}
 
 
+_ACT_NP = {"tanh": (np.tanh, lambda h: 1.0 - np.tanh(h) ** 2), "sin": (np.sin, np.cos)}
+
+
+@functools.lru_cache(maxsize=64)
+def _mlp_weights(key, width, act, din, m):
+    """Weights of the real one-hidden-layer MLP built by create_PINN for (key, width, act, din, m) - read as data."""
+    import equinox as eqx
+    import jax
+    import jax.numpy as jnp
+
+    from jinns.utils._pinn import _MLP
+
+    a = {"tanh": jax.nn.tanh, "sin": jnp.sin}[act]
+    eqx_list = ((eqx.nn.Linear, din, width), (a,), (eqx.nn.Linear, width, m))
+    mlp = _MLP(key=jax.random.PRNGKey(key), eqx_list=eqx_list)
+    lin = [l for l in mlp.layers if hasattr(l, "weight")]
+    return tuple((np.asarray(l.weight, dtype=np.float64), np.asarray(l.bias, dtype=np.float64)) for l in lin), eqx_list
+
+
+def _mlp_all(netspec, z):
+    c = netspec["mlp"]
+    din, m = int(netspec["field"]["din"]), int(netspec["field"]["m"])
+    (W1, b1), (W2, b2) = _mlp_weights(c["key"], c["width"], c["act"], din, m)[0]
+    f, df = _ACT_NP[c["act"]]
+    h = W1 @ np.asarray(z, dtype=np.float64) + b1
+    V = W2 @ f(h) + b2
+    G = W2 @ (df(h)[:, None] * W1)
+    return V, G, np.zeros((m, din, din)) * np.nan  # second derivatives are not needed by the references
+
+
 def make_net(netspec, eq_type, slice_solution=None):
     import jax.numpy as jnp
     import jinns
 
-    mod = make_field_module(netspec["field"])
     m = int(netspec["field"]["m"])
+    if netspec.get("mlp") is not None:
+        import jax
+
+        c = netspec["mlp"]
+        din = int(netspec["field"]["din"])
+        _, eqx_list = _mlp_weights(c["key"], c["width"], c["act"], din, m)
+        dim_x = din - (0 if eq_type == "statio_PDE" else 1)
+        sl = None
+        if netspec.get("slice_solution") is not None:
+            sl = jnp.s_[netspec["slice_solution"][0]:netspec["slice_solution"][1]]
+        u = jinns.utils.create_PINN(jax.random.PRNGKey(c["key"]), eqx_list, eq_type, dim_x if eq_type != "ODE" else 0,
+                                    output_transform=TRANSFORMS[netspec.get("transform", "none")], slice_solution=sl)
+        return u, u.init_params()
+    mod = make_field_module(netspec["field"])
     if slice_solution is None and netspec.get("slice_solution") is not None:
         slice_solution = jnp.s_[netspec["slice_solution"][0]:netspec["slice_solution"][1]]
     if slice_solution is None:
@@ -68,7 +111,7 @@ def make_net(netspec, eq_type, slice_solution=None):
 
 def net_all(netspec, z, eqp):
     """numpy closed form of the wrapped network: value (m,), grad (m,din), hess (m,din,din)."""
-    V, G, H = Field(netspec["field"]).all(z)
+    V, G, H = _mlp_all(netspec, z) if netspec.get("mlp") is not None else Field(netspec["field"]).all(z)
     tr = netspec.get("transform", "none")
     if tr == "none":
         return V, G, H
